@@ -12,6 +12,9 @@ def f32bits(v):
     return struct.unpack("<I", struct.pack("<f", float(v)))[0]
 
 
+BOOST = int(os.environ.get("VERIF_BOOST", "1"))
+
+
 def run(rng, tier, res=None):
     load_opfython()
     from opfython.stream import splitter, parser, loader
@@ -19,7 +22,7 @@ def run(rng, tier, res=None):
     from opfython.core.subgraph import Subgraph
     res = res or Result("stream")
     lines, obs, metas = [], [], []
-    scale = 1 if tier == "quick" else 10
+    scale = BOOST if tier == "quick" else 10
     tmp = tempfile.mkdtemp(prefix="opfverif-stream-")
 
     def viol(msgs, meta):
